@@ -49,6 +49,11 @@ CHECKS['C19'] = dict(engine='CH+SYMTOK', category='model_checking', design='4/C1
    text='Location: for every layout of three tokens (lengths 1..3, gaps 0..2, 0..2 line breaks, leading blank line) and every offending token or end-of-input, the text under the carets of the real message is exactly the offending token (one past the last token for end of input) and the displayed lines are source lines; the lexer\'s illegal-character message points at the character. Suggestions: on every error path of the mindsdb dialect over all token streams of length <= K and corpus neighbourhoods, the offending token is the first one the grammar cannot accept and every concrete keyword/symbol suggested is shifted by the real parser when placed after the accepted prefix.',
    note='Trusted: CrossHair path bookkeeping (geometry leaves run natively), SYMTOK explorer, representative lexemes. Bounds: 3-token layouts; K<=3 quick / 4 thorough; 80 / all corpus statements. Comments are whitespace to the lexer (absolute positions), so they are covered by the gap variables.')
 
+CHECKS['C03'] = dict(engine='SYMTOK+LRZ3', category='model_checking', design='4/C03',
+   technique='symbolic token streams over the expression alphabet (z3-decided class branching) through the real parsers of all three dialects vs an independent precedence-climbing reader; z3 query over every LALR state for operator shift/reduce decisions; z3 integer witness for differing groupings',
+   text='Every expression of up to 6 (quick) / 7 (thorough) tokens over the operator alphabet in the select list, and up to 4 / 5 tokens in WHERE, ON, HAVING, function-argument and CASE-branch position, for all three dialects: on every accepting path the tree built by the real parser (grouping and parentheses flags) equals the grouping of the reference reader implementing the property\'s precedence table. Table level: in every state where a binary/unary operator production is the only complete item, the live action for every operator lookahead is the reference decision (reduce on higher-or-equal level, shift otherwise) - this quantifies over all parser states, not inputs.',
+   note='Trusted: z3, explorer, reference reader (refs/precedence.py). Sequences outside the reference grammar (NOT as operand of a tighter operator, binary NOT, calls, subqueries) and chained comparisons are counted and skipped. States with competing reductions (BETWEEN..AND) are covered by SYMTOK only.')
+
 NA_PENDING = {}
 
 
